@@ -21,6 +21,7 @@ pub struct GenOpts {
     pub max_edb: usize,
     pub rec_arith: u32, // percent chance a recursive IDB gets a bounded counter column
     pub near_tc: u32,   // percent chance a self-recursive IDB is a transitive-closure look-alike
+    pub exact_tc: u32,  // percent chance such a look-alike is the exact left- or right-recursive closure
 }
 impl Default for GenOpts {
     fn default() -> Self {
@@ -40,6 +41,7 @@ impl Default for GenOpts {
             max_edb: 10,
             rec_arith: 5,
             near_tc: 25,
+            exact_tc: 20,
         }
     }
 }
@@ -400,6 +402,34 @@ fn gen_program_once(r: &mut Rng, o: &GenOpts) -> GenProgram {
                     }
                 };
                 let e1 = edge(&mut g, "X", "Y");
+                if g.pct(o.exact_tc) {
+                    g.tags.insert("exact_tc");
+                    let base = Clause { head: name.clone(), hargs: vec![HeadArg::T(v("X")), HeadArg::T(v("Y"))], body: vec![Lit::Pos(e1.clone())] };
+                    let mut e2 = e1.clone();
+                    let left = g.pct(50);
+                    for t in e2.args.iter_mut() {
+                        if let Term::Var(n) = t {
+                            *n = match (left, n.as_str()) {
+                                (true, "X") => "Y".to_string(),
+                                (true, _) => "Z".to_string(),
+                                (false, other) => other.to_string(),
+                            };
+                        }
+                    }
+                    let ratom = if left { Atom { rel: name.clone(), args: vec![v("X"), v("Y")] } } else { Atom { rel: name.clone(), args: vec![v("Y"), v("Z")] } };
+                    let body = if left == g.pct(80) { vec![Lit::Pos(ratom), Lit::Pos(e2)] } else { vec![Lit::Pos(e2), Lit::Pos(ratom)] };
+                    let rec = Clause { head: name.clone(), hargs: vec![HeadArg::T(v("X")), HeadArg::T(v("Z"))], body };
+                    if g.pct(70) {
+                        clauses.push(base);
+                        clauses.push(rec);
+                    } else {
+                        clauses.push(rec);
+                        clauses.push(base);
+                    }
+                    avail.push((name, 2));
+                    i += 1;
+                    continue;
+                }
                 let (h1, h2) = if g.pct(55) { ("X", "Y") } else { *g.r.pick(&[("Y", "X"), ("X", "X"), ("Y", "Y"), ("X", "Y")]) };
                 let mut bbody = vec![Lit::Pos(e1.clone())];
                 if g.pct(12) {
